@@ -349,6 +349,11 @@ def run_preexisting(chk, fe, prefix, principal, seq):
                     dn = [v[1] for h, v in snap.items() if h.endswith("/")]
                     if dn and dn[0] != "kept":
                         notes.append(("C18:existing-collection-properties-lost", "displayname of %s is %r, was 'kept'" % (t, dn[0])))
+    except RuntimeError as e:
+        # the server under test did not come up (or died) on this data directory
+        if "xandikos.web.main" not in str(e):
+            raise
+        notes.append(("C18:server-does-not-start-on-existing-data", str(e)[:400]))
     finally:
         if impl is not None:
             impl.close()
